@@ -86,9 +86,16 @@ Fixpoint fb_run (e : fenv) (st : fframe) (ops : list fbop) : option fframe :=
    its mem[roff, roff + rsize), or halts exceptionally (then it returns nothing).  The
    caller keeps the returned bytes as its returndata buffer and gets the first
    min(osize, returned) of them written at oloc *)
+(* A creation (CREATE / CREATE2): the init code is mem[loc, loc + size); it runs [body] on an
+   empty memory with an EMPTY calldata (its own code is the init code) and ends with
+   RETURN (the returned bytes become the code of the new account) or REVERT of its
+   mem[roff, roff + rsize), or halts exceptionally.  The creator's memory is unchanged; its
+   returndata buffer is empty after a successful creation or an exceptional halt, the
+   reverted bytes otherwise *)
 Inductive fop : Type :=
 | FB (o : fbop)
-| FCall (ccode : list B) (aloc asize : nat) (body : list fbop) (roff rsize : nat) (oloc osize : nat).
+| FCall (ccode : list B) (aloc asize : nat) (body : list fbop) (roff rsize : nat) (oloc osize : nat)
+| FCreate (loc size : nat) (body : list fbop) (roff rsize : nat) (reverts : bool).
 
 Definition callee_returns (ccode : list B) (args : list B) (body : list fbop) (roff rsize : nat) : list B :=
   match fb_run (FE args ccode) (FF [] []) body with
@@ -96,9 +103,22 @@ Definition callee_returns (ccode : list B) (args : list B) (body : list fbop) (r
   | None => []
   end.
 
+(* what the init code returns / reverts with; None = it halts exceptionally *)
+Definition init_returns (mem : list B) (loc size : nat) (body : list fbop) (roff rsize : nat) : option (list B) :=
+  match fb_run (FE [] (read_padded mem loc size)) (FF [] []) body with
+  | Some st => Some (read_padded (f_mem st) roff rsize)
+  | None => None
+  end.
+
 Definition f_apply (e : fenv) (st : fframe) (o : fop) : option fframe :=
   match o with
   | FB b => fb_apply e st b
+  | FCreate loc size body roff rsize reverts =>
+      Some (FF (f_mem st)
+               match init_returns (f_mem st) loc size body roff rsize with
+               | Some d => if reverts then d else []
+               | None => []
+               end)
   | FCall ccode aloc asize body roff rsize oloc osize =>
       let rd := callee_returns ccode (read_padded (f_mem st) aloc asize) body roff rsize in
       Some (FF (mem_write (f_mem st) oloc (firstn (Nat.min osize (length rd)) rd)) rd)
@@ -132,3 +152,4 @@ Arguments FRetCopy {B}.
 Arguments FMCopy {B}.
 Arguments FB {B}.
 Arguments FCall {B}.
+Arguments FCreate {B}.
